@@ -381,5 +381,6 @@ void bad_argument (svalue_t * val, int type, int arg, int instr) {
   strncpy (msg, outbuf.buffer, sizeof(msg)-1);
   FREE_MSTR (outbuf.buffer);
 
-  error (msg);
+  /* msg contains the offending value's text: never use it as the format */
+  error ("%s", msg);
 }
